@@ -128,48 +128,62 @@ package network_delegation
 
 // ---------------------------------------------------------------- scans
 //
-// The range scan itself (storage.State.IterateRange over the IAVL tree, key splitting, address
-// parsing) is assumed.  iterateAddresses records the prefix it was asked to scan in the ghost
-// field ndLastScan so that its callers' choice of prefix becomes a checkable postcondition.
-//@ model ndLastScan(*Store) string
-//@ assume func (*Store).iterateAddresses
-//@   modifies ndLastScan(st)
-//@   ensures ndLastScan(st) == str(prefix)
+// Layers (store.go):  State.IterateRange (storage, assumed scan, C09.prefix-scan discipline)
+//   -> (*Store).iterate           PROVED iterator: prefix scan, decode of the stored coin
+//   -> (*Store).iterateAddresses  ASSUMED iterator: the address is parsed from the last "_"-segment of the key with
+//                                 strings.Split + hex decoding, which the engine models as arbitrary values (T-PURE):
+//                                 no fact relating the parsed address to the key can be derived from the body
+//   -> IteratePendingAmounts      PROVED iterator on top of iterateAddresses (choice of prefix, forwarding closure)
+//   -> IterateActiveAmounts       assumed (its yields enumerate the scan with $n/count for C13, see below)
+//   -> IterateAllPendingAmounts   PROVED iterator on top of iterate (used by queries / state export only)
+// Completeness is not claimed by any proved iterator: the scan walks the keys already written to the tree only.
 
-// What a scan IteratePendingAmounts(height) visits: the n-th visited record is the pending record of
-// (height, ndScanA(st,height,n)); records are visited once; the callback sees the value currently
-// stored (State.IterateRange collects the keys first and reads each value when it is visited).
-// ndScanCount is the number of records visited when the callback never stops.
-//@ ghost func ndScanA(st *Store, height int, n int) string
-//@ ghost func ndScanCount(st *Store, height int) int
-//
-// The body is verified: it proves that the scanned prefix is "<prefix>_p_<height>_", i.e. the height
-// INCLUDING the separator that follows it in every record key "<prefix>_p_<height>_<address>"
-// (C12.scan-exact-height).  Before repair 5f46b28 the separator was missing and the scan for height 1 also
-// visited heights 10..19, 100..199, ... (records paid early and twice by the BeginBlock hook).  That every
-// key with this prefix is a record of exactly that height (decimal digits contain no "_") is string
-// reasoning the engine cannot do; it is what the yields clauses (assumed at call sites, as for every
-// iterator) state.
-//@ func (*Store).IteratePendingAmounts
+// raw scan: every element handed to fn is a key of the prefix scan together with the decoding of the bytes stored
+// under it.  (The link from the decoded coin to the ledger ndRaw is the typed view, assumed one layer up where the
+// address is parsed; a decoded coin holds its amount behind a pointer, which no entry-state assumption can describe.)
+//@ func (*Store).iterate
+//@   iterator                                                                                                  // C12.scan
+//@   requires st != nil && st.State != nil
+//@   modifies exhausted(st.State.cache), exhausted(st.State.txSession)
+//@   yields y1 != nil && scanKey(str(y0), str(prefix))                                                         // C12.scan
+//@   yields !exhausted(st.State.cache) && vHas(st.State)[str(y0)] ==> *y1 == deser(vVal(st.State)[str(y0)], "balance.Coin")   // C12.scan
+
+// ndCatAssoc: concatenation is associative (strings are uninterpreted in the engine). The uninterpreted flag only
+// scopes the axiom to the queries that mention it and serves as its trigger.
+//@ ghost func ndCatAssoc(a string, b string, c string) bool
+//@ axiom forall a string, b string, c string :: ndCatAssoc(a, b, c) && (a + b) + c == a + (b + c)              // T-STR.cat-assoc
+
+// parse layer (assumed, see above): every element handed to fn is the record stored under
+// <prefix><address text>: prefix scans are only ever made with a prefix that ends with the separator, and the
+// address is the last segment of the key.
+//@ assume func (*Store).iterateAddresses
 //@   iterator
-//@   requires st != nil
-//@   modifies ndLastScan(st)
-//@   count ndScanCount(st, height)
-//@   yields y0 != nil && y1 != nil && y1.Amount != nil && str(*y0) == ndScanA(st, height, $n)
-//@   yields y1.Currency.Name == "OLT" && big(y1.Amount) == ndPend(st, height, *y0)
-//@   yields forall i int, j int :: 0 <= i && i < j && j < ndScanCount(st, height) ==> ndPendKey(st, height, bytes(ndScanA(st, height, i))) != ndPendKey(st, height, bytes(ndScanA(st, height, j)))
-//@   ensures ndLastScan(st) == ndPendScanExact(st, height)                                                     // C12.scan-exact-height
+//@   requires st != nil && st.State != nil
+//@   modifies exhausted(st.State.cache), exhausted(st.State.txSession)
+//@   yields y0 != nil && y1 != nil && y1.Amount != nil && y1.Currency.Name == "OLT" && big(y1.Amount) == ndRaw(st)[str(prefix) + addrStr(str(*y0))]
+
+// IteratePendingAmounts(height): every element handed to fn is the pending record of EXACTLY that height and of the
+// yielded address, with the amount currently stored.  Proved on the body: the scan prefix is "<prefix>_p_<height>_"
+// (height INCLUDING the separator; before repair 5f46b28 the separator was missing, the scan for height 1 also visited
+// heights 10..19, 100..199, ... and this obligation is not provable), and the forwarding closure stops only when fn
+// asks for it.
+//@ func (*Store).IteratePendingAmounts
+//@   iterator                                                                                                  // C12.scan
+//@   requires st != nil && st.State != nil
+//@   modifies exhausted(st.State.cache), exhausted(st.State.txSession)
+//@   yields y0 != nil && y1 != nil && y1.Amount != nil && y1.Currency.Name == "OLT"                            // C12.scan
+//@   yields ndCatAssoc(ndPendPrefix(st), ndItoa(height) + "_", addrStr(str(*y0))) && big(y1.Amount) == ndPend(st, height, *y0)   // C12.scan-exact-height
 
 // (for C13's reward distribution) ndActCount(st): number of active records visited; ndActSum(st, n): sum of the
-// amounts of the first n visited records.  Assumed, like the other scans: every active record is visited exactly
-// once and active amounts are non-negative, so the sum over the whole scan is the running total ndActTotal.
-// (State.IterateRange only sees keys already written to the tree: true at a block boundary, where the hooks run.)
+// amounts of the first n visited records.  ASSUMED as a whole: the clauses enumerate the scan ($n, count) and state its
+// completeness (every active record is visited exactly once, so the sum over the whole scan is the running total
+// ndActTotal; true at a block boundary, where the hooks run), which no body can prove.
 //@ ghost func ndActSum(st *Store, n int) int
 //@ ghost func ndActCount(st *Store) int
-//@ func (*Store).IterateActiveAmounts
+//@ assume func (*Store).IterateActiveAmounts
 //@   iterator
 //@   requires st != nil
-//@   modifies ndLastScan(st)
+//@   modifies nothing
 //@   count ndActCount(st)
 //@   yields y0 != nil && y1 != nil && y1.Amount != nil && big(y1.Amount) == ndActive(st, *y0)
 //@   yields 0 <= $n && $n < ndActCount(st) && ndActSum(st, $n + 1) == ndActSum(st, $n) + big(y1.Amount) && ndActSum(st, 0) == 0 && big(y1.Amount) >= 0
@@ -177,7 +191,15 @@ package network_delegation
 // prefix sums never exceed the total (consequence of the two clauses above, every visited amount being >= 0;
 // stated because the callback may stop the scan early)
 //@   yields ndActSum(st, $n + 1) <= ndActTotal(st)
-//@   ensures ndLastScan(st) == ndActPrefix(st)                                                                 // C12.scan-active
+
+// all pending undelegation records (queries / state export): every element is a decoded record stored under some
+// key of the pending prefix; height and address are parsed from the key (not derivable, see above)
+//@ func (*Store).IterateAllPendingAmounts
+//@   iterator                                                                                                  // C12.scan
+//@   requires st != nil && st.State != nil
+//@   modifies exhausted(st.State.cache), exhausted(st.State.txSession)
+//@   yields y1 != nil && y2 != nil                                                                             // C12.scan
+//@   yields exists k string :: scanKey(k, ndPendPrefix(st)) && (!exhausted(st.State.cache) && vHas(st.State)[k] ==> *y2 == deser(vVal(st.State)[k], "balance.Coin"))   // C12.scan
 
 // ================================================================ delegation rewards store (rewards_store.go)
 //
@@ -327,18 +349,32 @@ package network_delegation
 
 // all pending undelegation records / all pending reward withdrawals / all reward balances (used by queries
 // and state export only): assumed scans, no claim on which records are visited
-//@ assume func (*Store).IterateAllPendingAmounts
-//@   iterator
-//@   modifies nothing
-//@   yields y1 != nil && y2 != nil && y2.Amount != nil && big(y2.Amount) == ndPend(st, y0, *y1)
-//@ assume func (*DelegRewardStore).IterateAllPD
-//@   iterator
-//@   modifies nothing
-//@   yields y2 != nil && big(y2) == ndRewPend(drs, y0, y1)
-//@ assume func (*DelegRewardStore).IterateActiveRewards
-//@   iterator
-//@   modifies nothing
-//@   yields y0 != nil && y1 != nil && big(y1) == ndRew(drs, *y0)
+// Rewards store scans (rewards_store.go).  The amount is decoded into a *balance.Amount, whose value is a function
+// of the bytes; the typed view ("the bytes stored under k decode to ndRRaw(drs)[k]", the trust the assumed get carries)
+// is an explicit `assumes`.  Height and address are parsed from the key with fmt/strings/hex functions the engine
+// models as arbitrary values, so no proved clause relates them to the key.  Completeness is not claimed.
+//@ func (*DelegRewardStore).iterate
+//@   iterator                                                                                                  // C12.scan
+//@   requires drs != nil && drs.state != nil
+//@   assumes forall k string :: vHas(drs.state)[k] ==> deser(vVal(drs.state)[k], "balance.Amount") == ndRRaw(drs)[k]   // A-TYPEDVIEW stored bytes decode to the ledger value
+//@   modifies exhausted(drs.state.cache), exhausted(drs.state.txSession)
+//@   yields y1 != nil                                                                                          // C12.scan
+//@   yields exists k string :: scanKey(k, str(drs.prefix) + subkey) && (!exhausted(drs.state.cache) && vHas(drs.state)[k] ==> big(y1) == ndRRaw(drs)[k])   // C12.scan
+
+//@ func (*DelegRewardStore).IterateActiveRewards
+//@   iterator                                                                                                  // C12.scan
+//@   requires drs != nil && drs.state != nil
+//@   modifies exhausted(drs.state.cache), exhausted(drs.state.txSession)
+//@   yields y0 != nil && y1 != nil                                                                             // C12.scan
+//@   yields exists k string :: scanKey(k, str(drs.prefix) + ("balance" + "_")) && (!exhausted(drs.state.cache) && vHas(drs.state)[k] ==> big(y1) == ndRRaw(drs)[k])   // C12.scan
+
+// (the scan prefix is built with fmt.Sprintf, an arbitrary string for the engine: the prefix-scan discipline and the
+// stopping behaviour are checked, nothing can be said about which records are visited)
+//@ func (*DelegRewardStore).IterateAllPD
+//@   iterator                                                                                                  // C12.scan
+//@   requires drs != nil && drs.state != nil
+//@   modifies exhausted(drs.state.cache), exhausted(drs.state.txSession)
+//@   yields y2 != nil                                                                                          // C12.scan
 
 // genesis: every listed record is written under the key family it belongs to
 //@ func (*Store).LoadDelegators
